@@ -811,6 +811,7 @@ type Facts struct {
 	Translated  map[string]string   `json:"translated"` // function -> "" (translated) | reason it was refused
 	GenWritten  []string            `json:"gen_written"`
 	Inlined     []string            `json:"inlined"` // call sites of pure scalar helpers replaced by the helper's body (inline.go)
+	API         []APIFunc           `json:"api"` // exported functions and methods of the root package (name, receiver, parameter types, number of results)
 	EnvVars     []string            `json:"env_vars"` // names the root package passes to os.Getenv / os.LookupEnv ("*": os.Environ is called)
 	LibPins     map[string]string   `json:"lib_pins"` // library function the model transcribes -> hash of its source
 }
@@ -1112,6 +1113,7 @@ func main() {
 	}
 	gen["Lang.lean"] = langLean(&facts, names)
 	facts.EnvVars = envVarsRead(allFiles)
+	facts.API = apiOf(allFiles)
 	gen["Source.lean"] = sourceLean(&facts, allFiles)
 	gen["Gates.lean"] = gatesText
 	gen["Consts.lean"] = constsLean(&facts)
